@@ -563,6 +563,10 @@ def parse_fn(toks, impl, fn):
 
 # ---------------------------------------------------------------------------------------------------
 # configuration: what the Rust names mean in the model
+CORE = "rust/routee-compass-core/src"
+PT = "rust/routee-compass-powertrain/src"
+APP = "rust/routee-compass/src"
+
 UNSIGNED = {"usize": 64, "u64": 64, "u32": 32, "u16": 16, "u8": 8}
 SIGNED = {"isize": 64, "i64": 64, "i32": 32, "i16": 16, "i8": 8}
 NUMTYPES = {"f64", "Cost", "StateVar", "Distance", "Time", "Speed", "Energy", "EnergyRate", "Grade", "Weight",
@@ -579,10 +583,14 @@ UNIT_CONSTS = {"BASE_DISTANCE_UNIT": ("baseDistanceUnit", "DistanceUnit"), "BASE
 # identifier newtypes over usize (`EdgeId(pub usize)`): Nat, compared only
 IDTYPES = {"EdgeId", "VertexId"}
 # structs that the model represents by one of their fields: a value of the struct *is* that field
-STRUCTS = {"Edge": dict(lean="Nat", field="edge_id", field_type="EdgeId")}
+# (fields: Rust field -> (projection applied to the Lean value, Rust type); fields not listed are not representable)
+STRUCTS = {
+    "Edge": dict(lean="Nat", fields={"edge_id": ("", ("EdgeId", []))}),
+    # the model's `Int × Option Int`: (arrival heading, optional departure heading)
+    "EdgeHeading": dict(lean="(Int × Option Int)", file=CORE + "/model/access/default/turn_delays/edge_heading.rs",
+                        fields={"arrival_heading": (".1", ("i16", [])), "departure_heading": (".2", ("Option", [("i16", [])]))}),
+}
 
-CORE = "rust/routee-compass-core/src"
-PT = "rust/routee-compass-powertrain/src"
 
 # Rust enum -> the model's inductive type.  variants: Rust variant -> (Lean constructor, positional arguments);
 # an argument is a Rust field name (tuple variants: "0", "1", …) or "+name:type" for an argument only the
@@ -638,9 +646,32 @@ FUNCS = [
          lean="Speed_from_Distance_Time", label="From<(Distance, Time)> for Speed", self_type="Speed", into=(("Distance", "Time"), "Speed")),
     dict(file=CORE + "/model/unit/builders.rs", impl=None, fn="create_time", owner="C09"),
     dict(file=CORE + "/model/unit/builders.rs", impl=None, fn="create_speed", owner="C09"),
+    dict(file=CORE + "/model/access/default/turn_delays/edge_heading.rs", impl="EdgeHeading", fn="start_heading", owner="C03"),
+    dict(file=CORE + "/model/access/default/turn_delays/edge_heading.rs", impl="EdgeHeading", fn="end_heading", owner="C03"),
+    dict(file=CORE + "/model/access/default/turn_delays/edge_heading.rs", impl="EdgeHeading", fn="bearing_to_destination", owner="C03"),
     dict(file=PT + "/routee/vehicle/vehicle_ops.rs", impl=None, fn="as_soc_percent", owner="C08"),
     dict(file=PT + "/routee/vehicle/vehicle_ops.rs", impl=None, fn="soc_from_battery_and_delta", owner="C08"),
 ]
+
+
+def const_int(e):
+    """value of a constant integer expression (literals, unary minus, iN::MIN / MAX, widening casts), else None"""
+    if e[0] == "int":
+        return int(re.match(r"[\d_]+", e[1]).group(0).replace("_", ""))
+    if e[0] == "unary" and e[1] == "-":
+        v = const_int(e[2])
+        return None if v is None else -v
+    if e[0] == "cast":
+        v = const_int(e[1])
+        to = e[2][0]
+        bits = SIGNED.get(to)
+        if v is not None and bits and -2 ** (bits - 1) <= v < 2 ** (bits - 1):
+            return v
+        return None
+    if e[0] == "path" and len(e[1]) == 2 and e[1][0] in SIGNED and e[1][1] in ("MIN", "MAX"):
+        b = SIGNED[e[1][0]]
+        return -2 ** (b - 1) if e[1][1] == "MIN" else 2 ** (b - 1) - 1
+    return None
 
 
 def dec_to_frac(lit):
@@ -686,6 +717,8 @@ class Ctx:
         self.impl_find = cfg.get("impl_header", self.impl)
         self.lean_name = cfg.get("lean") or ((self.impl + "_" if self.impl else "") + self.fn)
         self.into_table = {}
+        self.fn_table = {}
+        self.struct_checked = set()
         self.aliases = {"Self": self.impl} if self.impl else {}
         self.guards = []
         self.aux = []          # (name, text, recursive)
@@ -716,6 +749,8 @@ class Ctx:
             return ("List", self.conv_type(args[0]))
         if name == "(tuple)" and len(args) >= 2:
             return ("Prod", [self.conv_type(a) for a in args])
+        if name == "Option" and len(args) == 1:
+            return ("Option", self.conv_type(args[0]))
         if name == "Result" and len(args) == 2:
             return ("Opt", self.conv_type(args[0]))
         if name in IDTYPES and not args:
@@ -750,7 +785,7 @@ class Ctx:
             return STRUCTS[t[1]]["lean"]
         if t[0] == "Prod":
             return "(" + " × ".join(self.lean_type(x) for x in t[1]) + ")"
-        if t[0] == "Opt":
+        if t[0] in ("Opt", "Option"):
             return f"(Option {self.lean_type(t[1])})"
         if t[0] == "Enum":
             e = ENUMS[t[1]]
@@ -760,6 +795,34 @@ class Ctx:
                 return f"({e['lean']} α)"
             return e["lean"]
         refuse(f"no Lean type for {t}")
+
+    def struct_decl(self, name):
+        """the declared fields of a configured struct must be the configured ones, with the configured types"""
+        st = STRUCTS[name]
+        if "file" not in st or name in self.struct_checked:
+            return
+        with open(os.path.join(self.repo, st["file"])) as f:
+            toks = tokenize(f.read())
+        for i in range(len(toks) - 2):
+            if toks[i][1] == "struct" and toks[i + 1][1] == name and toks[i + 2][1] == "{":
+                P = Parser(toks, i + 3)
+                decl = {}
+                while True:
+                    skip_attrs(P)
+                    if P.eat("}"):
+                        break
+                    P.eat("pub")
+                    fname = P.ident()
+                    P.expect(":")
+                    decl[fname] = P.ty()
+                    if not P.eat(","):
+                        P.expect("}")
+                        break
+                if decl != {k: v[1] for k, v in st["fields"].items()}:
+                    refuse(f"struct {name}: declared fields differ from the model's")
+                self.struct_checked.add(name)
+                return
+        refuse(f"struct {name} not found")
 
     def enum_decl(self, name):
         """the declaration of a configured enum, checked against the variant table"""
@@ -851,7 +914,7 @@ class Ctx:
                 return x, t
             if op == "!" and t == "Bool":
                 return f"(!{x})", t
-            if op == "-" and (is_num(t) or is_sint(t)):
+            if op == "-" and (is_num(t) or is_sint(t) or t == "IntLit"):
                 return f"(-{x})", t
             refuse(f"unary {op} on {t}")
         if k == "cast":
@@ -863,6 +926,10 @@ class Ctx:
                 return x, to
             if is_sint(t) and is_sint(to) and SIGNED[to] >= SIGNED[t]:
                 return x, to
+            if is_sint(t) and is_sint(to):      # narrowing `as`: two's complement wrap-around
+                return f"(Int.bmod {x} {2 ** SIGNED[to]})", to
+            if is_uint(t) and is_uint(to):      # narrowing `as` of an unsigned integer: truncation
+                return f"({x} % {2 ** UNSIGNED[to]})", to
             refuse(f"cast {t} as {to}")
         if k == "binary":
             return self.tr_binary(e, env)
@@ -870,8 +937,10 @@ class Ctx:
             x, t = self.tr(e[1], env)
             if is_num(t) and t != "Num:f64" and e[2] == "0":
                 return x, "Num:f64"
-            if t[0] == "Struct" and e[2] == STRUCTS[t[1]]["field"]:
-                return x, STRUCTS[t[1]]["field_type"]
+            if t[0] == "Struct" and e[2] in STRUCTS[t[1]]["fields"]:
+                self.struct_decl(t[1])
+                suffix, ft = STRUCTS[t[1]]["fields"][e[2]]
+                return x + suffix, self.conv_type(ft)
             refuse(f"field .{e[2]} of {t}")
         if k == "tuple" and len(e[1]) >= 2:
             xs = [self.tr(a, env) for a in e[1]]
@@ -888,7 +957,7 @@ class Ctx:
         if k == "block":
             return self.tr_block(e, env)
         if k == "match":
-            refuse("match outside tail position")
+            return self.tr_match_option(e, env, lambda x, en: self.no_guards(lambda: self.tr(x, en), "a match arm"))
         refuse(f"expression form `{k}` outside the subset")
 
     def tr_block(self, b, env):
@@ -930,6 +999,8 @@ class Ctx:
             if n == "self":
                 refuse("self outside a match")
             refuse(f"unknown name {n}")
+        if len(segs) == 2 and segs[0] in SIGNED and segs[1] in ("MIN", "MAX"):
+            return f"({const_int(('path', segs))})", segs[0]
         if len(segs) == 2 and segs[0] in NUMTYPES:
             self.uses_alpha = True
             if segs[1] == "ZERO":
@@ -1103,6 +1174,25 @@ class Ctx:
                 refuse("collect: only into Result<Vec<_>, _>")
             return self.tr_collect(recv[1][1], recv[3][0], self.conv_type(tf[0][1][0][1][0]), env)
         r, t = self.tr(recv, env)
+        if t[0] == "Struct" and (t[1], name) in self.fn_table:
+            lname, ps, rt, hs = self.fn_table[(t[1], name)]
+            if not hs or len(ps) != len(args) or rt[0] == "Opt":
+                refuse(f"call of {t[1]}::{name}: shape")
+            xs = []
+            for (pn, pt), a in zip(ps, args):
+                x, ta = self.tr(a, env)
+                self.unify(ta, pt, f"argument of {name}")
+                xs.append(x)
+            return f"({lname} {r}" + "".join(" " + x for x in xs) + ")", rt
+        # signed integer clamp with constant bounds lo <= hi (otherwise it panics): the std definition
+        if name == "clamp" and len(args) == 2 and is_sint(t):
+            lo, hi = const_int(args[0]), const_int(args[1])
+            if lo is None or hi is None or lo > hi:
+                refuse("clamp: bounds are not constants with min <= max")
+            for b in (lo, hi):
+                if not -2 ** (SIGNED[t] - 1) <= b < 2 ** (SIGNED[t] - 1):
+                    refuse("clamp: bound out of the type's range")
+            return f"(let x_ := {r}; if x_ < ({lo}) then ({lo}) else if x_ > ({hi}) then ({hi}) else x_)", t
         if name in ("clone", "to_owned") and not args:
             return r, t
         if name in ("as_f64", "into_inner") and not args and is_num(t):
@@ -1235,6 +1325,21 @@ class Ctx:
         self.aux.append((aux, text, recursive))
         return f"({aux}{capargs} {xs} {init})", rt
 
+    def tr_match_option(self, e, env, arm_fn):
+        """`match opt { Some(x) => a, None => b }` over an Option value; arm_fn returns (text, type)"""
+        x, t = self.tr(e[1], env)
+        if t[0] != "Option":
+            refuse(f"match on a value of type {t}")
+        some_arm = [(p, b) for p, b in e[2] if p[0] == "tstruct" and p[1] == ["Some"] and len(p[2]) == 1 and p[2][0][0] in ("bind", "wild")]
+        none_arm = [(p, b) for p, b in e[2] if p[0] == "path" and p[1] == ["None"]]
+        if len(e[2]) != 2 or len(some_arm) != 1 or len(none_arm) != 1:
+            refuse("match on an Option: arms other than Some(x) / None")
+        env2 = dict(env)
+        lp = self.bind_pat(some_arm[0][0][2][0], t[1], env2)
+        a, ta = arm_fn(some_arm[0][1], env2)
+        b, tb = arm_fn(none_arm[0][1], env)
+        return f"(match {x} with | some {lp} => {a} | none => {b})", self.unify(ta, tb, "match arms")
+
     # --- match on self
     def tr_match(self, e, env, arm_fn):
         s = e[1]
@@ -1325,7 +1430,9 @@ class Ctx:
             c = self.tr_prop(e[1], env)
             g = self.take_guards(mark)
             return self.wrap(g, f"(if {c} then {self.tail(e[2], env)} else {self.tail(e[3], env)})")
-        if k == "match":
+        if k == "match" and not (canon(e[1]).lstrip("*&") == "self" and self.impl in ENUMS):
+            pass
+        elif k == "match":
             arms = self.tr_match(e, env, lambda x, en: self.tail(x, en))
             return "(match self with\n    " + "\n    ".join(arms) + ")"
         if k == "call" and e[1][0] == "path" and e[1][1] in (["Ok"], ["Err"]):
@@ -1360,6 +1467,7 @@ class Ctx:
             toks = tokenize(f.read())
         has_self, params, ret, body = parse_fn(toks, self.impl_find, self.fn)
         self.ret_declared = ret
+        self.has_self = has_self
         self.params = [(n, (None if n in self.cfg.get("drop", []) else self.conv_type(t))) for n, t in params]
         self.recursive_calls = 0
         env = {n: t for n, t in self.params if t is not None}
@@ -1368,9 +1476,14 @@ class Ctx:
         self.ret = rt if rt[0] == "Opt" or not self.opt else ("Opt", rt)
         sig = ""
         if has_self:
-            if self.impl not in ENUMS:
-                refuse("self of a type that is not a configured enum")
-            sig += f" (self : {self.lean_type(('Enum', self.impl))})"
+            if self.impl in STRUCTS:
+                self.struct_decl(self.impl)
+                env["self"] = ("Struct", self.impl)
+                sig += f" (self : {self.lean_type(('Struct', self.impl))})"
+            elif self.impl not in ENUMS:
+                refuse("self of a type that is not a configured enum or struct")
+            else:
+                sig += f" (self : {self.lean_type(('Enum', self.impl))})"
         for n, t in self.params:
             if t is not None:
                 sig += f" ({self.name(n)} : {self.lean_type(t)})"
@@ -1396,16 +1509,18 @@ class Ctx:
 
 def generate_file(repo, owner, cfgs):
     """(text of Gen/Fns<owner>.lean, [names translated], [(name, reason) not recognised])"""
-    blocks, imports, done, skipped, into_table = [], {"Compass.Model.Num"}, [], [], {}
+    blocks, imports, done, skipped, into_table, fn_table = [], {"Compass.Model.Num"}, [], [], {}, {}
     for cfg in cfgs:
         label = cfg.get("label") or ((cfg["impl"] + "::" if cfg.get("impl") else "") + cfg["fn"])
         try:
             c = Ctx(cfg, repo)
             c.into_table = into_table
+            c.fn_table = fn_table
             text = c.translate()
             blocks.append(text)
             imports |= c.imports
             done.append(label)
+            fn_table[(cfg.get("impl"), cfg["fn"])] = (c.lean_name, c.params, c.ret, c.has_self)
             if cfg.get("into"):
                 into_table[tuple(cfg["into"][0])] = (c.lean_name, cfg["into"][1])
         except NotRecognised as ex:
